@@ -32,6 +32,13 @@ def storeStep (kv : KV) (fs : List String) : KV × String :=
   | ["addmany", l] => mut1 ((decSigs l).map Op.addMany)
   | ["delete", id] => mut1 ((decStr id).map Op.delete)
   | ["markfp", id, note] => mut1 (do let i ← decStr id; let n ← decStr note; pure (Op.markFP i n))
+  | ["migrate", l] =>
+    -- MigrateFromJSON: AddSignatures in batches of 1000
+    match decSigs l with
+    | some l =>
+      let kv' := (chunks 1000 l).foldl (fun kv c => (step kv (Op.addMany c)).1) kv
+      (kv', s!"ok:{l.length}")
+    | none => (kv, "bad-op")
   | ["rebuild"] => mut1 (some Op.rebuild)
   | ["reopen"] => mut1 (some Op.reopen)
   | ["get", id] =>
